@@ -88,6 +88,20 @@ def op_write_header(c):
 OPS = {k[3:]: v for k, v in list(globals().items()) if k.startswith("op_")}
 
 
+def scrub(o):
+    """ints too large for the interpreter's int -> str conversion (3.11+) cannot go through json: they leave as None (no check reads them;
+    the limit is NOT lifted in this process, so that the library's own handling of such constants stays observable)"""
+    if isinstance(o, bool) or o is None or isinstance(o, (str, float)):
+        return o
+    if isinstance(o, int):
+        return None if o.bit_length() > 12000 else o
+    if isinstance(o, (list, tuple)):
+        return [scrub(x) for x in o]
+    if isinstance(o, dict):
+        return dict((k, scrub(v)) for k, v in o.items())
+    return o
+
+
 def main():
     req = json.load(sys.stdin)
     with contextlib.redirect_stdout(_cap), contextlib.redirect_stderr(_cap):
@@ -103,7 +117,7 @@ def main():
                 out.append(f(c))
             except Exception as e:
                 out.append({"err": type(e).__name__, "outer": True})
-    _real_stdout.write("@@JSON@@" + json.dumps({"results": out, "captured": _cap.getvalue()[-2000:]}, default=repr) + "\n")
+    _real_stdout.write("@@JSON@@" + json.dumps({"results": scrub(out), "captured": _cap.getvalue()[-2000:]}, default=repr) + "\n")
 
 
 if __name__ == "__main__":
